@@ -119,12 +119,32 @@ class Res:
 _KINDS = None
 
 
+class CaseTimeout(BaseException):
+    pass
+
+
+def _alarm(signum, frame):
+    raise CaseTimeout()
+
+
+CASE_TIMEOUT_S = int(os.environ.get("VERIF_CASE_TIMEOUT", "900"))
+
+
 def _exec_case(case):
-    """Worker-side: run one case, never let an exception escape un-attributed."""
+    """Worker-side: run one case, never let an exception escape un-attributed; a case that does not
+    finish within CASE_TIMEOUT_S is a hard harness error (waiting must be made visible by the check)."""
+    import signal
+
     try:
         fn = _KINDS[case["kind"]]
-        with env.quiet():
-            r = fn(case)
+        old = signal.signal(signal.SIGALRM, _alarm)
+        signal.alarm(CASE_TIMEOUT_S)
+        try:
+            with env.quiet():
+                r = fn(case)
+        finally:
+            signal.alarm(0)
+            signal.signal(signal.SIGALRM, old)
         return r
     except BaseException as e:  # a harness bug, not a property violation
         r = Res()
